@@ -293,7 +293,11 @@ c07()
 
 
 def c05():
-    names = {0: "clear", 1: "fill", 2: "into_iter", 3: "into_vec", 4: "into_box", 5: "clone", 6: "from_view", 7: "from_viewmut", 8: "overwrite", 9: "drop", 10: "view_fill"}
+    names = {0: "clear", 1: "fill", 2: "into_iter", 3: "into_vec", 4: "into_box", 5: "clone", 8: "overwrite", 9: "drop", 10: "view_fill"}
+    for (nm, (c, r, sc, sr, ec, er)) in {"full2x2": (2, 2, 0, 0, 2, 2), "right2x3": (2, 3, 1, 0, 2, 3), "inner3x3": (3, 3, 1, 1, 3, 2), "empty": (2, 2, 1, 1, 1, 2), "bottom2x3": (2, 3, 0, 1, 2, 3)}.items():
+        for mutable in (False, True):
+            add("C05", f"c05_from_view{'mut' if mutable else ''}_{nm}", f"c05::from_view_tok({c}, {r}, {sc}, {sr}, {ec}, {er}, {b(mutable)})", c * r + 4,
+                "quick" if nm in ("full2x2", "right2x3", "empty") and (mutable == (nm == "right2x3")) else "thorough")
     for op, nm in names.items():
         for (c, r) in [(2, 2), (2, 3), (3, 3), (1, 1), (0, 0)]:
             if (c, r) == (0, 0) and op in (6, 7, 10):
@@ -545,6 +549,8 @@ def engb():
         add("C03", f"b_view_{parent}", f"engb::b_view({parent})", 1, "native", kind="panic")
     for w in range(5):
         add("C20", f"b_ctor_{w}", f"engb::b_ctor({w})", 1, "native", kind="panic")
+    for op in range(4):
+        add("C11", f"b_state_{op}", f"engb::b_state({op})", 1, "native", kind="pass")
 
 
 engb()
